@@ -100,6 +100,26 @@ def read_only(ctx):
         d = gen.rand_design(rng, profile='small', nops=rng.randint(3, 10), raw=False, nroms=rng.choice([0, 1, 2, 2]),
                             ops=[o for o in gen.OPS_ALL if o != 'nand'])
         blk = d.block
+        # selects whose bit list is not ascending (a reversed slice, a swizzle, a repeated bit): the passes output_to_firrtl
+        # runs in place must keep the order of the list
+        srcs_ = sorted((w for w in blk.wirevector_subset((pyrtl.Input, pyrtl.Register)) if len(w) >= 2), key=lambda w: w.name)
+        if srcs_:
+            with pyrtl.set_working_block(blk, no_sanity_check=True):
+                w_ = rng.choice(srcs_)
+                idx_ = list(range(len(w_)))[::-1] if k % 2 else [rng.randrange(len(w_)) for _ in range(rng.randint(2, len(w_) + 1))]
+                if idx_ == sorted(idx_):
+                    idx_ = idx_[::-1] if idx_ != idx_[::-1] else list(range(len(w_)))[::-1]
+                if k % 4 >= 2:
+                    idx_ = list(range(len(w_)))[::-1]
+                o_ = pyrtl.Output(len(idx_), 'verif_swz')
+                if k % 4 < 2:
+                    t_ = pyrtl.WireVector(len(idx_))
+                    blk.add_net(pyrtl.LogicNet('s', tuple(idx_), (w_,), (t_,)))
+                    o_ <<= t_
+                else:
+                    o_ <<= w_[::-1]
+                d.outputs.append(o_)
+            ctx.count('non-ascending-select', 'added')
         steps = gen.rand_stimulus(rng, d, 4)
         _, memmap, _ = gen.rand_init(rng, d, with_default=False)
         memmap_by_id = {m.id: mm for m, mm in memmap.items()}
@@ -142,6 +162,26 @@ def read_only(ctx):
             if len(ctx.violations) >= 4:
                 break
             continue       # the block is no longer the design that was generated: nothing further can be decided on it
+        # simulating reads the block and leaves nothing behind, in the block or anywhere else: the same simulator class built
+        # again with its default arguments gives the same traces
+        for simcls in (pyrtl.Simulation, pyrtl.FastSimulation):
+            try:
+                runs = []
+                for rep_ in range(2):
+                    sim = simcls(block=blk, tracer=pyrtl.SimulationTrace(block=blk))
+                    for s_ in steps:
+                        sim.step(dict(s_))
+                    runs.append({o: list(sim.tracer.trace[o]) for o in outs})
+                ctx.evaluations += 1
+            except pyrtl.PyrtlError:
+                ctx.count('reader-raised', simcls.__name__ + '-twice:PyrtlError')
+                continue
+            if runs[0] != runs[1]:
+                o_ = next(o for o in outs if runs[0][o] != runs[1][o])
+                ctx.violation('simulation-leaves-state:' + simcls.__name__, 'two %s objects built one after the other on the same block with default '
+                              'arguments and given the same inputs trace Output %s as %r and %r' % (simcls.__name__, o_, runs[0][o_], runs[1][o_]),
+                              dict(replay, call=simcls.__name__ + ' twice'))
+                break
         # the block has been exported above; the user now extends it and exports again: the text is that of the design as
         # it is now (the same text a fresh copy of the block gives), whatever was exported before
         try:
@@ -221,6 +261,39 @@ def read_only(ctx):
             break
 
 
+def resimulation(ctx):
+    """a simulation reads the block and leaves nothing behind: simulators built one after the other with default arguments,
+    on the same block and on a copy of it, all start from an empty memory"""
+    rng = ctx.rng
+    for k in range(ctx.n(6, 40)):
+        pyrtl.reset_working_block()
+        aw, dw = rng.randint(1, 4), rng.randint(1, 9)
+        mem = pyrtl.MemBlock(dw, aw, name='m', asynchronous=bool(k % 2))
+        ra, wa, wd, we = pyrtl.Input(aw, 'ra'), pyrtl.Input(aw, 'wa'), pyrtl.Input(dw, 'wd'), pyrtl.Input(1, 'we')
+        o = pyrtl.Output(dw, 'o')
+        o <<= mem[ra]
+        mem[wa] <<= pyrtl.MemBlock.EnabledWrite(wd, we)
+        blk = pyrtl.working_block()
+        hot = rng.randrange(1 << aw)
+        steps = [{'ra': hot, 'wa': hot, 'wd': rng.getrandbits(dw) | 1, 'we': 1}] + \
+                [{'ra': hot, 'wa': rng.randrange(1 << aw), 'wd': rng.getrandbits(dw), 'we': rng.randrange(2)} for _ in range(3)]
+        cp = pyrtl.copy_block(blk, update_working_block=False)
+        for simcls in (pyrtl.Simulation, pyrtl.FastSimulation):
+            runs = []
+            for b_ in (blk, blk, cp):
+                sim = simcls(block=b_, tracer=pyrtl.SimulationTrace(block=b_))
+                for s_ in steps:
+                    sim.step(dict(s_))
+                runs.append(list(sim.tracer.trace['o']))
+                ctx.evaluations += 1
+            ctx.count('resimulation', simcls.__name__)
+            if runs[0][0] != 0 or runs[1] != runs[0] or runs[2] != runs[0]:
+                ctx.violation('simulation-leaves-state:' + simcls.__name__, '%s built three times with default arguments (twice on a block, once on its '
+                              'copy) and given the same inputs traces the read port as %r, %r and %r' % (simcls.__name__, runs[0], runs[1], runs[2]),
+                              {'kind': 'resimulation', 'aw': aw, 'dw': dw, 'steps': steps, 'simulator': simcls.__name__})
+                return
+
+
 def firrtl_roms(ctx):
     """output_to_firrtl(rom_blocks=[...]) materialises function-valued ROM data in place: every word must survive"""
     rng = ctx.rng
@@ -260,6 +333,7 @@ def main(ctx):
     orders = determinism(ctx)
     read_only(ctx)
     firrtl_roms(ctx)
+    resimulation(ctx)
     ctx.extra['set_orders_exercised'] = orders
     ctx.oblige('observed:byte-identical exports and identical traces across hash seeds and allocation patterns; exports read-only',
                not ctx.violations, '%d child builds / reader calls' % ctx.evaluations)
